@@ -858,7 +858,7 @@ def main(tier):
         f = chk.finding_for(name)
         if f:
             known['C15.' + name[4:]] = (f['what'], C15.log_class(sc))
-    timeout = 8000 if tier == 'quick' else 60000
+    timeout = 4000 if tier == 'quick' else 60000
     rename = lambda n: 'C03.' + n[4:] if n.startswith('C15.') else n
     common = dict(known=known, witness_terms=witness_terms, timeout_ms=timeout, deadline_s=3600, path_timeout_ms=30000, only=keep, rename=rename)
 
